@@ -17,7 +17,8 @@ MenuFields == IF Family = "C18Ens" THEN {<<"e0">>, <<"e1">>, <<"obs", "e2">>, <<
 \* MaxLen >= 99 means "no bound on the length of the history" (configurations *_Unbounded, explored under VIEW CanonicalView): the menu
 \* is then the core of 12 requests (every field set, every input, the whole array and one slice) so that the 2^12 cache contents stay enumerable
 Unbounded == MaxLen >= 99
-ReqAxes == IF Unbounded THEN {<<"all", 1>>, <<"time", 1>>}
+ReqAxes == IF Family = "C18Axes" THEN {<<"all", 1>>, <<"time", 2>>, <<"leadtime", 2>>, <<"leadtimeday", 1>>, <<"leadtimeday", 2>>, <<"month", 1>>, <<"month", 2>>}
+           ELSE IF Unbounded THEN {<<"all", 1>>, <<"time", 1>>}
             ELSE {<<"all", 1>>, <<"no", 1>>, <<"time", 1>>, <<"time", 2>>, <<"location", 1>>, <<"location", 2>>}
 Menu == {[fields |-> f, inp |-> i, axis |-> a[1], idx |-> a[2]] : f \in MenuFields, i \in 1..X.n, a \in ReqAxes}
 MenuOk(r) == r.axis = "all" \/ r.idx <= NumSlices(X, r.axis)
